@@ -84,6 +84,7 @@ type Contract struct {
 	Props    []string          // properties this contract serves
 	Witness  map[string]map[string]Expr // clause label -> bound variable -> witness expression
 	Skips    []SkipClause
+	Callback []*Clause // assumed after every dynamic (user callback) call inside the function (A-user)
 	File     string
 	Line     int
 	HasPanicsNever bool
@@ -575,7 +576,7 @@ var clauseKeywords = map[string]bool{
 	"modifies": true, "loop": true, "panics": true, "trusted": true, "lemma": true,
 	"axiom": true, "inline": true, "returns": true, "props": true, "noframe": true,
 	"K": true, "F": true, "guarded": true, "hyp": true, "concl": true, "vars": true,
-	"opaque": true, "uninterp": true, "witness": true, "skip": true,
+	"opaque": true, "uninterp": true, "witness": true, "skip": true, "callback": true,
 }
 
 type rawLine struct {
@@ -715,6 +716,18 @@ func readSpecFile(path string) (*SpecFile, error) {
 			case "modifies":
 				cur.Modifies = append(cur.Modifies, c)
 			}
+		case "callback":
+			if cur == nil {
+				return nil, fail(rl, "callback outside func")
+			}
+			if !strings.HasPrefix(rest, "ensures ") {
+				return nil, fail(rl, "callback ensures EXPR")
+			}
+			c, err := mk("callback", strings.TrimPrefix(rest, "ensures "))
+			if err != nil {
+				return nil, err
+			}
+			cur.Callback = append(cur.Callback, c)
 		case "skip":
 			if cur == nil {
 				return nil, fail(rl, "skip outside func")
